@@ -323,17 +323,20 @@ def chainKeys (ns : List Note) : Nat → Note → List Nat
     | none => [n.key]
     | some nx => n.key :: chainKeys ns fuel nx
 
+/-- one head of `notes_tied` in the tie check of `sanitize_part` -/
+def sanitizeStep (tol : Nat) (acc : List Note) (h : Note) : List Note :=
+  match acc.find? (·.key = h.key) with
+  | none => acc
+  | some n =>
+    let ed := chainEndDur acc acc.length n
+    let ext : Int := (ed.1 : Int) - (n.start : Int)
+    if (ext - (ed.2 : Int)).natAbs > tol then
+      let ks := chainKeys acc acc.length n
+      acc.map fun m => if ks.contains m.key then { m with tieNext := none, tiePrev := none } else m
+    else acc
+
 def sanitizeTies (ns : List Note) (tol : Nat) : List Note :=
-  (ns.filter (fun n => n.tiePrev.isNone ∧ n.tieNext.isSome)).foldl (fun acc h =>
-    match acc.find? (·.key = h.key) with
-    | none => acc
-    | some n =>
-      let (e, d) := chainEndDur acc acc.length n
-      let ext : Int := (e : Int) - (n.start : Int)
-      if (ext - (d : Int)).natAbs > tol then
-        let ks := chainKeys acc acc.length n
-        acc.map fun m => if ks.contains m.key then { m with tieNext := none, tiePrev := none } else m
-      else acc) ns
+  (ns.filter (fun n => n.tiePrev.isNone ∧ n.tieNext.isSome)).foldl (sanitizeStep tol) ns
 
 /-- step 1 of `find_tuplets`: runs of consecutive notes whose `symbolic_duration is None` -/
 def tupletCandidates (qd : List (Int × Nat)) (ns : List Note) : List (List Note) :=
